@@ -104,11 +104,15 @@ _p('C09', 'other',
 
 _p('C10', 'other',
    'Union of the memory-safety and frame obligations (pointer dereference, array bounds, logical bounds of output arrays, signed overflow, conversion, assigns-clause inclusion, unwinding assertions) of EVERY unit under contract, proved units and bounded units reported separately; fresh allocations have nondeterministic content, so every postcondition proved holds for every prior heap content; object workspaces enter every call undefined (typestate units).',
-   'Only safety-class obligations count for this property. Not decided: leak freedom and shared_ptr lifetimes, allocation-address independence, third-party paths, functions that are not under contract.',
+   'Only safety-class obligations count for this property. Quick tier: first size-variant of every unit (vacuity guard exercised by the functional properties\' checks of the same units); thorough tier: every variant. Not decided: leak freedom and shared_ptr lifetimes, allocation-address independence, third-party paths, functions that are not under contract.',
    TECH_BOUNDED,
    ['no out-of-bounds / overflow / frame violation in any unit under contract (proved units: all sizes; bounded units: up to the bound)', 'no dependence on uninitialised memory in the units under contract'],
    ['leaks / lifetimes', 'functions outside the listed units'],
    'DESIGN.md section 6 (C10)', safety_only=True)
+# C10 re-runs every unit under contract: the quick tier takes the first size-variant of each unit and leaves the vacuity guard to
+# the functional properties' own checks of the same units; the thorough tier runs everything
+PROPS['C10']['quick_first_variant_only'] = True
+PROPS['C10']['skip_vacuity'] = True
 
 _p('C13', 'other',
    'Contracts on the complex / block matrix adapters\' row iterators and unblock_matrix where present (loop-free parts proved, loops bounded).',
